@@ -8,7 +8,7 @@ from vivarium.library.topology import (
     normalize_path, get_in, assoc_path, delete_in, update_in, dict_to_paths,
     paths_to_dict)
 
-from vsym.core import AND, OR, NOT, EQ, is_sym
+from vsym.core import PathControl, AND, OR, NOT, EQ, is_sym
 
 PROPERTY = 'C17'
 CLAIMS = {
@@ -267,6 +267,26 @@ def dict_part(ctx, cfg):
               sig='assoc-falsy', info=lambda: dict(path=q, tree=d0,
                                                    written=repr(w),
                                                    read=repr(got)))
+    # a dictionary written at q replaces whatever was there (also another
+    # dictionary, also with the empty dictionary)
+    for label, wd in (('dict', {'new': v}), ('empty-dict', {})):
+        dd = copy.deepcopy(d0)
+        raised = None
+        try:
+            assoc_path(dd, q, dict(wd))
+            back = get_in(dd, q, 'dflt')
+        except PathControl:
+            raise
+        except Exception as err:
+            ctx.check_poison()
+            raised, back = repr(err), None
+        ok_w = raised is None and isinstance(back, dict) and \
+            set(back) == set(wd)
+        if ok_w and wd:
+            ok_w = EQ(back['new'], v)
+        ctx.claim('C17.assoc_get', ok_w, sig='assoc-' + label,
+                  info=lambda: dict(path=q, tree=d0, written=wd,
+                                    read=repr(back), raised=raised))
     # assoc_in agrees with assoc_path (on a copy, result only)
     r2 = assoc_in(copy.deepcopy(d0), q, v)
     same = [set(dict(dict_to_paths((), r2))) == set(dict(dict_to_paths((), d)))]
